@@ -136,24 +136,7 @@ theorem LInv.edge {L : List α} {ac : Prop} {s : St α} (h : LInv G ok L ac s) {
     obtain ⟨rb, hb1, rfl⟩ := find?_edgeStep hb
     have := h.c1 a ra b rb ha1 hb1
     simp only [edgeUpd, List.mem_append]
-    by_cases e1 : a = m <;> by_cases e2 : b = d <;> simp [e1, e2, this]
-    · subst e1; subst e2; exact (h.c1 a ra b rb ha1 hb1)
-    · subst e1
-      constructor
-      · rintro (h' | h')
-        · exact Or.inl ((h.c1 a ra b rb ha1 hb1).mp h')
-        · exact absurd h'.1 e2
-      · rintro (h' | h')
-        · exact Or.inl ((h.c1 a ra b rb ha1 hb1).mpr h')
-        · exact absurd h' e2
-    · subst e2
-      constructor
-      · rintro (h' | h')
-        · exact Or.inl ((h.c1 a ra b rb ha1 hb1).mp h')
-        · exact absurd h' e1
-      · rintro (h' | h')
-        · exact Or.inl ((h.c1 a ra b rb ha1 hb1).mpr h')
-        · exact absurd h'.1 e1
+    by_cases e1 : a = m <;> by_cases e2 : b = d <;> simp [e1, e2, this] <;> (try exact this) <;> (try (rw [← e1]; exact this)) <;> (try (rw [← e2]; exact this))
   · intro a r2 h2 he
     obtain ⟨r1, h1, rfl⟩ := find?_edgeStep h2
     rw [hl] at he
@@ -165,6 +148,541 @@ theorem LInv.edge {L : List α} {ac : Prop} {s : St α} (h : LInv G ok L ac s) {
   · intro a ha; rw [hn] at ha; exact h.loaded a ha
   · rw [hl]; exact h.onlyCtor
   · rw [hl]; exact h.wo
+
+/-! ### the start of a constructor -/
+
+variable (lt : α → α → Bool)
+
+/-- `module_load` has inserted the record, opened the object, and the constructor has
+    logged its start -/
+def beginStep (n : α) (s : St α) : St α :=
+  { mods := modify n setHandle (insertRec lt { name := n } s.mods), log := Event.ctorBegin n :: s.log }
+
+theorem find?_begin {a n : α} {s : St α} (h : n ∉ names s.mods) :
+    find? a (beginStep lt n s).mods =
+      if a = n then some { name := n, handle := true } else find? a s.mods := by
+  unfold beginStep
+  simp only
+  rw [find?_modify' (by simp), find?_insertRec lt _ _ h]
+  by_cases e : a = n
+  · subst e; simp [setHandle]
+  · simp only [e, if_false]
+    cases find? a s.mods <;> simp
+
+theorem mem_names_begin {a n : α} {s : St α} :
+    a ∈ names (beginStep lt n s).mods ↔ a = n ∨ a ∈ names s.mods := by
+  unfold beginStep
+  simp only
+  rw [names_modify (by simp), mem_names_insertRec]
+
+theorem LInv.begin {L : List α} {ac : Prop} {s : St α} (h : LInv G ok L ac s) {n : α}
+    (hn : n ∉ names s.mods) (hok : ok n = true) (hL : Loaded G L n) :
+    LInv G ok L ac (beginStep lt n s) := by
+  have hlog : (beginStep lt n s).log = Event.ctorBegin n :: s.log := rfl
+  have hnb : Event.ctorBegin n ∉ s.log := fun hb => hn ((h.begun n).mp hb)
+  have hne : Event.ctorEnd n ∉ s.log := fun he => hnb (h.ended n he)
+  constructor
+  · unfold beginStep
+    simp only
+    rw [names_modify (by simp), nodup_names_insertRec]
+    exact ⟨hn, h.nodup⟩
+  · intro a r hr
+    rw [find?_begin lt hn] at hr
+    by_cases e : a = n
+    · simp [e] at hr; subst hr; simp
+    · simp only [e, if_false] at hr; exact h.fresh a r hr
+  · intro a ha
+    rcases (mem_names_begin lt).mp ha with rfl | ha
+    · exact hok
+    · exact h.okAll a ha
+  · intro a r hr d hd
+    rw [find?_begin lt hn] at hr
+    by_cases e : a = n
+    · simp [e] at hr; subst hr; simp at hd
+    · simp only [e, if_false] at hr
+      exact (mem_names_begin lt).mpr (Or.inr (h.deps_in a r hr d hd))
+  · intro a r hr d hd
+    rw [find?_begin lt hn] at hr
+    by_cases e : a = n
+    · simp [e] at hr; subst hr; simp at hd
+    · simp only [e, if_false] at hr
+      exact (mem_names_begin lt).mpr (Or.inr (h.rdeps_in a r hr d hd))
+  · intro a ra b rb ha hb
+    rw [find?_begin lt hn] at ha hb
+    by_cases ea : a = n
+    · simp [ea] at ha; subst ha
+      by_cases eb : b = n
+      · simp [eb] at hb; subst hb; simp
+      · simp only [eb, if_false] at hb
+        simp only [List.not_mem_nil, iff_false]
+        intro hmem
+        exact hn (ea ▸ h.rdeps_in b rb hb a hmem)
+    · simp only [ea, if_false] at ha
+      by_cases eb : b = n
+      · simp [eb] at hb; subst hb
+        simp only [List.not_mem_nil, false_iff]
+        intro hmem
+        exact hn (eb ▸ h.deps_in a ra ha b hmem)
+      · simp only [eb, if_false] at hb
+        exact h.c1 a ra b rb ha hb
+  · intro a r hr he
+    rw [find?_begin lt hn] at hr
+    rw [hlog] at he
+    simp only [List.mem_cons, reduceCtorEq, false_or] at he
+    by_cases e : a = n
+    · exact absurd (e ▸ he) hne
+    · simp only [e, if_false] at hr
+      exact h.deps_done a r hr he
+  · intro a
+    rw [hlog, mem_names_begin]
+    simp only [List.mem_cons, Event.ctorBegin.injEq]
+    rw [h.begun a]
+  · intro a he
+    rw [hlog] at he ⊢
+    simp only [List.mem_cons, reduceCtorEq, false_or] at he
+    exact List.mem_cons_of_mem _ (h.ended a he)
+  · intro a ha
+    rcases (mem_names_begin lt).mp ha with rfl | ha
+    · exact hL
+    · exact h.loaded a ha
+  · intro e he
+    rw [hlog] at he
+    rcases List.mem_cons.mp he with rfl | he
+    · exact Or.inl ⟨n, rfl⟩
+    · exact h.onlyCtor e he
+  · intro hacv
+    rw [hlog]
+    simp only [Iauthd.Module.wo, okAt, Bool.and_eq_true, decide_eq_true_eq]
+    exact ⟨hnb, h.wo hacv⟩
+
+/-- the constructor returns: `ctor-end` is logged -/
+theorem LInv.finish {L : List α} {ac : Prop} {s : St α} (h : LInv G ok L ac s) {n : α}
+    (hrec : ∃ r, find? n s.mods = some r ∧ r.depends = G n) (hinc : Incomplete s n)
+    (hdeps : ac → ∀ d, d ∈ G n → Event.ctorEnd d ∈ s.log) :
+    LInv G ok L ac (logEv (Event.ctorEnd n) s) := by
+  have hlog : (logEv (Event.ctorEnd n) s).log = Event.ctorEnd n :: s.log := rfl
+  have hmods : (logEv (Event.ctorEnd n) s).mods = s.mods := rfl
+  constructor
+  · rw [hmods]; exact h.nodup
+  · rw [hmods]; exact h.fresh
+  · rw [hmods]; exact h.okAll
+  · rw [hmods]; exact h.deps_in
+  · rw [hmods]; exact h.rdeps_in
+  · rw [hmods]; exact h.c1
+  · intro a r hr he
+    rw [hmods] at hr
+    rw [hlog] at he
+    rcases List.mem_cons.mp he with e | he
+    · obtain ⟨r', hr', hd⟩ := hrec
+      have : a = n := by injection e
+      subst this
+      rw [hr] at hr'
+      injection hr' with e'
+      rw [e']; exact hd
+    · exact h.deps_done a r hr he
+  · intro a
+    rw [hlog, hmods]
+    simp only [List.mem_cons, reduceCtorEq, false_or]
+    exact h.begun a
+  · intro a he
+    rw [hlog] at he ⊢
+    rcases List.mem_cons.mp he with e | he
+    · have : a = n := by injection e
+      subst this
+      exact List.mem_cons_of_mem _ hinc.1
+    · exact List.mem_cons_of_mem _ (h.ended a he)
+  · rw [hmods]; exact h.loaded
+  · intro e he
+    rw [hlog] at he
+    rcases List.mem_cons.mp he with rfl | he
+    · exact Or.inr ⟨n, rfl⟩
+    · exact h.onlyCtor e he
+  · intro hacv
+    rw [hlog]
+    simp only [Iauthd.Module.wo, okAt, Bool.and_eq_true, decide_eq_true_eq, List.all_eq_true]
+    exact ⟨⟨⟨hinc.1, hinc.2⟩, hdeps hacv⟩, h.wo hacv⟩
+
+/-! ### `module_depends` and `module_load` -/
+
+variable (G ok)
+
+/-- what a successful `module_load n` guarantees -/
+structure LPost (L : List α) (ac : Prop) (s s' : St α) (n : α) : Prop where
+  inv : LInv G ok L ac s'
+  mem : n ∈ names s'.mods
+  mono : ∀ x, x ∈ names s.mods → x ∈ names s'.mods
+  inc : ∀ x, Incomplete s' x ↔ Incomplete s x
+  logmono : ∀ e, e ∈ s.log → e ∈ s'.log
+  keep : ∀ a r, find? a s.mods = some r → ∃ r', find? a s'.mods = some r' ∧ r'.depends = r.depends
+  done : ac → Event.ctorEnd n ∈ s'.log
+
+def LoadOk (L : List α) (ac : Prop) (s : St α) (n : α) : Res α → Prop
+  | .ok s' => LPost G ok L ac s s' n
+  | .fatal s' w => (∃ x, w = Why.unloadable x ∧ ok x = false ∧ Loaded G L x) ∧ OnlyCtor s'.log
+
+/-- what the dependency loop of `m`'s constructor guarantees -/
+structure LoopPost (L : List α) (ac : Prop) (m : α) (s s' : St α) : Prop where
+  inv : LInv G ok L ac s'
+  mrec : ∃ r, find? m s'.mods = some r ∧ r.depends = G m
+  minc : Incomplete s' m
+  mono : ∀ x, x ∈ names s.mods → x ∈ names s'.mods
+  inc : ∀ x, Incomplete s' x ↔ Incomplete s x
+  logmono : ∀ e, e ∈ s.log → e ∈ s'.log
+  keep : ∀ a r, a ≠ m → find? a s.mods = some r → ∃ r', find? a s'.mods = some r' ∧ r'.depends = r.depends
+  depsdone : ac → ∀ d, d ∈ G m → Event.ctorEnd d ∈ s'.log
+
+def LoopOk (L : List α) (ac : Prop) (m : α) (s : St α) : Res α → Prop
+  | .ok s' => LoopPost G ok L ac m s s'
+  | .fatal s' w => (∃ x, w = Why.unloadable x ∧ ok x = false ∧ Loaded G L x) ∧ OnlyCtor s'.log
+
+variable {G ok}
+
+theorem dependsLoop_cons (ld : α → St α → Res α) (m d : α) (ds : List α) (s : St α) :
+    dependsLoop ld m (d :: ds) s =
+      match (if (find? d s.mods).isSome then Res.ok s else ld d s) with
+      | .fatal s' w => .fatal s' w
+      | .ok s1 => dependsLoop ld m ds (edgeStep m d s1) := rfl
+
+/-- a module found in the set while something is still being constructed is itself
+    fully constructed, unless there is a cycle -/
+theorem found_done {L : List α} {ac : Prop} (hac : ac → NoCycle G L) {s : St α} (h : LInv G ok L ac s)
+    {d : α} (hd : d ∈ names s.mods) (hreach : ac → ∀ x, Incomplete s x → Reach1 G x d) :
+    ac → Event.ctorEnd d ∈ s.log := by
+  intro hacv
+  apply Classical.byContradiction
+  intro hne
+  have hinc : Incomplete s d := ⟨(h.begun d).mpr hd, hne⟩
+  exact hac hacv d (h.loaded d hd) (hreach hacv d hinc)
+
+theorem dependsLoop_spec {U L : List α} {ac : Prop} {f : Nat} (hac : ac → NoCycle G L)
+    (ld : α → St α → Res α)
+    (hld : ∀ d s, LInv G ok L ac s → Loaded G L d → unl U s < f →
+            (ac → ∀ x, Incomplete s x → Reach1 G x d) → LoadOk G ok L ac s d (ld d s))
+    (m : α) (hmL : Loaded G L m) :
+    ∀ ds s, LInv G ok L ac s → (∃ r, find? m s.mods = some r ∧ r.depends ++ ds = G m) →
+      Incomplete s m → unl U s < f → (ac → ∀ x, Incomplete s x → Reach G x m) →
+      (ac → ∀ r, find? m s.mods = some r → ∀ d, d ∈ r.depends → Event.ctorEnd d ∈ s.log) →
+      LoopOk G ok L ac m s (dependsLoop ld m ds s) := by
+  intro ds
+  induction ds with
+  | nil =>
+    intro s hinv hrec hminc _ _ hproc
+    obtain ⟨r, hr, hrd⟩ := hrec
+    simp only [List.append_nil] at hrd
+    show LoopPost G ok L ac m s s
+    exact {
+      inv := hinv
+      mrec := ⟨r, hr, hrd⟩
+      minc := hminc
+      mono := fun _ h => h
+      inc := fun _ => Iff.rfl
+      logmono := fun _ h => h
+      keep := fun a r' _ h => ⟨r', h, rfl⟩
+      depsdone := fun hacv d hd => hproc hacv r hr d (hrd ▸ hd) }
+  | cons d ds ih =>
+    intro s hinv hrec hminc hfuel hreach hproc
+    obtain ⟨r, hr, hrd⟩ := hrec
+    have hdG : d ∈ G m := by rw [← hrd]; simp
+    have hdL : Loaded G L d := hmL.step hdG
+    have hm : m ∈ names s.mods := mem_names_of_find? hr
+    have hreach1 : ac → ∀ x, Incomplete s x → Reach1 G x d :=
+      fun hacv x hx => ⟨m, hreach hacv x hx, hdG⟩
+    rw [dependsLoop_cons]
+    -- the state after `set_find` / `module_load`
+    have hstep : LoadOk G ok L ac s d (if (find? d s.mods).isSome then Res.ok s else ld d s) := by
+      by_cases hf : (find? d s.mods).isSome = true
+      · rw [if_pos hf]
+        have hd : d ∈ names s.mods := find?_isSome_iff.mp hf
+        exact {
+          inv := hinv
+          mem := hd
+          mono := fun _ h => h
+          inc := fun _ => Iff.rfl
+          logmono := fun _ h => h
+          keep := fun a r' h => ⟨r', h, rfl⟩
+          done := found_done hac hinv hd hreach1 }
+      · rw [if_neg hf]
+        exact hld d s hinv hdL hfuel hreach1
+    generalize (if (find? d s.mods).isSome then Res.ok s else ld d s) = res at hstep
+    cases res with
+    | fatal s' w => exact hstep
+    | ok s1 =>
+      have hp : LPost G ok L ac s s1 d := hstep
+      simp only
+      have hm1 : m ∈ names s1.mods := hp.mono m hm
+      have hminc1 : Incomplete s1 m := (hp.inc m).mpr hminc
+      obtain ⟨r1, hr1, hr1d⟩ := hp.keep m r hr
+      have hinv2 : LInv G ok L ac (edgeStep m d s1) := hp.inv.edge hm1 hp.mem hminc1.2
+      have hlog2 : (edgeStep m d s1).log = s1.log := rfl
+      have hn2 := names_edge m d s1
+      have hfind2 : ∀ a, find? a (edgeStep m d s1).mods = (find? a s1.mods).map (edgeUpd a m d) := by
+        intro a; exact find?_edge a m d s1.mods
+      have hrec2 : ∃ r, find? m (edgeStep m d s1).mods = some r ∧ r.depends ++ ds = G m := by
+        refine ⟨edgeUpd m m d r1, ?_, ?_⟩
+        · rw [hfind2, hr1]; rfl
+        · simp only [edgeUpd, if_true]
+          rw [hr1d, List.append_assoc]
+          exact hrd
+      have hres := ih (edgeStep m d s1) hinv2 hrec2 (by exact hminc1)
+        (by
+          have : unl U (edgeStep m d s1) ≤ unl U s := unl_le (by intro x hx; rw [hn2]; exact hp.mono x hx)
+          omega)
+        (by
+          intro hacv x hx
+          have hx1 : Incomplete s1 x := hx
+          exact hreach hacv x ((hp.inc x).mp hx1))
+        (by
+          intro hacv r2 hr2 d' hd'
+          rw [hfind2, hr1] at hr2
+          simp only [Option.map_some, Option.some.injEq] at hr2
+          subst hr2
+          rw [hlog2]
+          simp only [edgeUpd, if_true, List.mem_append, List.mem_singleton] at hd'
+          rcases hd' with hd' | rfl
+          · rw [hr1d] at hd'
+            exact hp.logmono _ (hproc hacv r hr d' hd')
+          · exact hp.done hacv)
+      generalize dependsLoop ld m ds (edgeStep m d s1) = res2 at hres
+      cases res2 with
+      | fatal s' w => exact hres
+      | ok s3 =>
+        have hq : LoopPost G ok L ac m (edgeStep m d s1) s3 := hres
+        show LoopPost G ok L ac m s s3
+        exact {
+          inv := hq.inv
+          mrec := hq.mrec
+          minc := hq.minc
+          mono := fun x hx => hq.mono x (by rw [hn2]; exact hp.mono x hx)
+          inc := fun x => (hq.inc x).trans (show Incomplete s1 x ↔ Incomplete s x from hp.inc x)
+          logmono := fun e he => hq.logmono e (hp.logmono e he)
+          keep := by
+            intro a ra hne hra
+            obtain ⟨ra1, hra1, hra1d⟩ := hp.keep a ra hra
+            have : find? a (edgeStep m d s1).mods = some (edgeUpd a m d ra1) := by rw [hfind2, hra1]; rfl
+            obtain ⟨ra3, hra3, hra3d⟩ := hq.keep a _ hne this
+            refine ⟨ra3, hra3, ?_⟩
+            rw [hra3d]
+            simp only [edgeUpd, hne, if_false, List.append_nil]
+            exact hra1d
+          depsdone := hq.depsdone }
+
+theorem load_succ (f : Nat) (n : α) (s : St α) :
+    load lt G ok (f + 1) n s =
+      if (find? n s.mods).isSome then .ok s
+      else if ok n = false then .fatal { s with mods := insertRec lt { name := n } s.mods } (.unloadable n)
+      else match dependsLoop (load lt G ok f) n (G n) (beginStep lt n s) with
+        | .fatal s' w => .fatal s' w
+        | .ok s3 => .ok (logEv (.ctorEnd n) s3) := rfl
+
+theorem load_spec {U L : List α} {ac : Prop} (hac : ac → NoCycle G L) (hcl : Closed G U L) :
+    ∀ f n s, LInv G ok L ac s → Loaded G L n → unl U s < f →
+      (ac → ∀ x, Incomplete s x → Reach1 G x n) → LoadOk G ok L ac s n (load lt G ok f n s) := by
+  intro f
+  induction f with
+  | zero => intro n s _ _ h; omega
+  | succ f ih =>
+    intro n s hinv hnL hfuel hreach
+    rw [load_succ]
+    by_cases hf : (find? n s.mods).isSome = true
+    · rw [if_pos hf]
+      have hn : n ∈ names s.mods := find?_isSome_iff.mp hf
+      exact {
+        inv := hinv
+        mem := hn
+        mono := fun _ h => h
+        inc := fun _ => Iff.rfl
+        logmono := fun _ h => h
+        keep := fun a r' h => ⟨r', h, rfl⟩
+        done := found_done hac hinv hn hreach }
+    · rw [if_neg hf]
+      have hn : n ∉ names s.mods := fun h => hf (find?_isSome_iff.mpr h)
+      by_cases hok : ok n = false
+      · rw [if_pos hok]
+        exact ⟨⟨n, rfl, hok, hnL⟩, hinv.onlyCtor⟩
+      · rw [if_neg hok]
+        have hok' : ok n = true := by simpa using hok
+        have hinv2 : LInv G ok L ac (beginStep lt n s) := hinv.begin lt hn hok' hnL
+        have hnb : Event.ctorBegin n ∉ s.log := fun hb => hn ((hinv.begun n).mp hb)
+        have hne : Event.ctorEnd n ∉ s.log := fun he => hnb (hinv.ended n he)
+        have hlog2 : (beginStep lt n s).log = Event.ctorBegin n :: s.log := rfl
+        have hinc2 : ∀ x, Incomplete (beginStep lt n s) x ↔ (x = n ∨ Incomplete s x) := by
+          intro x
+          unfold Incomplete
+          rw [hlog2]
+          simp only [List.mem_cons, Event.ctorBegin.injEq, reduceCtorEq, false_or]
+          constructor
+          · rintro ⟨h1 | h1, h2⟩
+            · exact Or.inl h1
+            · exact Or.inr ⟨h1, h2⟩
+          · rintro (rfl | ⟨h1, h2⟩)
+            · exact ⟨Or.inl rfl, hne⟩
+            · exact ⟨Or.inr h1, h2⟩
+        have hmono2 : ∀ x, x ∈ names s.mods → x ∈ names (beginStep lt n s).mods :=
+          fun x hx => (mem_names_begin lt).mpr (Or.inr hx)
+        have hloop := dependsLoop_spec (U := U) hac (load lt G ok f) (fun d s' => ih d s') n hnL (G n)
+          (beginStep lt n s) hinv2
+          ⟨{ name := n, handle := true }, by rw [find?_begin lt hn]; simp, by simp⟩
+          ((hinc2 n).mpr (Or.inl rfl))
+          (by
+            have : unl U (beginStep lt n s) < unl U s :=
+              unl_lt hmono2 (hcl.loaded hnL) hn ((mem_names_begin lt).mpr (Or.inl rfl))
+            omega)
+          (by
+            intro hacv x hx
+            rcases (hinc2 x).mp hx with rfl | hx
+            · exact Reach.refl _
+            · obtain ⟨b, hb, hc⟩ := hreach hacv x hx
+              exact Reach.tail hb hc)
+          (by
+            intro _ r hr d hd
+            rw [find?_begin lt hn] at hr
+            simp at hr
+            subst hr
+            simp at hd)
+        generalize dependsLoop (load lt G ok f) n (G n) (beginStep lt n s) = res at hloop
+        cases res with
+        | fatal s' w => exact hloop
+        | ok s3 =>
+          have hq : LoopPost G ok L ac n (beginStep lt n s) s3 := hloop
+          show LPost G ok L ac s (logEv (Event.ctorEnd n) s3) n
+          have hlog4 : (logEv (Event.ctorEnd n) s3).log = Event.ctorEnd n :: s3.log := rfl
+          exact {
+            inv := hq.inv.finish hq.mrec hq.minc hq.depsdone
+            mem := by
+              obtain ⟨r, hr, _⟩ := hq.mrec
+              exact mem_names_of_find? hr
+            mono := fun x hx => hq.mono x (hmono2 x hx)
+            inc := by
+              intro x
+              have h3 := hq.inc x
+              have h2 := hinc2 x
+              unfold Incomplete at h3 ⊢
+              rw [hlog4]
+              simp only [List.mem_cons, reduceCtorEq, false_or, Event.ctorEnd.injEq, not_or]
+              constructor
+              · rintro ⟨h1, hxn, h4⟩
+                rcases h2.mp (h3.mp ⟨h1, h4⟩) with e | h5
+                · exact absurd e hxn
+                · exact h5
+              · intro h5
+                have h6 := h3.mpr (h2.mpr (Or.inr h5))
+                refine ⟨h6.1, ?_, h6.2⟩
+                rintro rfl
+                exact hnb h5.1
+            logmono := fun e he => List.mem_cons_of_mem _ (hq.logmono e (List.mem_cons_of_mem _ he))
+            keep := by
+              intro a r hr
+              have hne : a ≠ n := by
+                rintro rfl
+                exact hn (mem_names_of_find? hr)
+              have : find? a (beginStep lt n s).mods = some r := by
+                rw [find?_begin lt hn]; simp [hne, hr]
+              exact hq.keep a r hne this
+            done := fun _ => List.mem_cons_self .. }
+
+/-! ### the whole list -/
+
+theorem unl_le_length (U : List α) (s : St α) : unl U s ≤ U.length := List.length_filter_le _ _
+
+theorem LInv.init (L : List α) (ac : Prop) : LInv G ok L ac ({} : St α) := by
+  constructor <;> simp [names, find?_nil, OnlyCtor, Iauthd.Module.wo]
+
+def LoadAllOk (L : List α) (ac : Prop) (l : List α) (s : St α) : Res α → Prop
+  | .ok s' => LInv G ok L ac s' ∧ (∀ x, x ∈ l → x ∈ names s'.mods) ∧
+      (∀ x, x ∈ names s.mods → x ∈ names s'.mods) ∧ (∀ x, ¬ Incomplete s' x)
+  | .fatal s' w => (∃ x, w = Why.unloadable x ∧ ok x = false ∧ Loaded G L x) ∧ OnlyCtor s'.log
+
+theorem loadAll_cons (fuel : Nat) (n : α) (ns : List α) (s : St α) :
+    loadAll lt G ok fuel (n :: ns) s =
+      match load lt G ok fuel n s with
+      | .fatal s' w => .fatal s' w
+      | .ok s' => loadAll lt G ok fuel ns s' := rfl
+
+theorem loadAll_spec {U L : List α} {ac : Prop} (hac : ac → NoCycle G L) (hcl : Closed G U L)
+    {fuel : Nat} (hfuel : U.length < fuel) :
+    ∀ l s, (∀ x, x ∈ l → x ∈ L) → LInv G ok L ac s → (∀ x, ¬ Incomplete s x) →
+      LoadAllOk (G := G) (ok := ok) L ac l s (loadAll lt G ok fuel l s) := by
+  intro l
+  induction l with
+  | nil =>
+    intro s _ hinv hinc
+    exact ⟨hinv, by simp, fun _ h => h, hinc⟩
+  | cons n ns ih =>
+    intro s hl hinv hinc
+    rw [loadAll_cons]
+    have hnL : Loaded G L n := ⟨n, hl n (List.mem_cons_self ..), Reach.refl n⟩
+    have h1 := load_spec lt hac hcl fuel n s hinv hnL
+      (by have := unl_le_length U s; omega)
+      (fun _ x hx => absurd hx (hinc x))
+    generalize load lt G ok fuel n s = res at h1
+    cases res with
+    | fatal s' w => exact h1
+    | ok s1 =>
+      have hp : LPost G ok L ac s s1 n := h1
+      simp only
+      have h2 := ih s1 (fun x hx => hl x (List.mem_cons_of_mem _ hx)) hp.inv
+        (fun x hx => hinc x ((hp.inc x).mp hx))
+      generalize loadAll lt G ok fuel ns s1 = res2 at h2
+      cases res2 with
+      | fatal s' w => exact h2
+      | ok s2 =>
+        obtain ⟨hi, hmem, hmono, hinc2⟩ := h2
+        refine ⟨hi, ?_, fun x hx => hmono x (hp.mono x hx), hinc2⟩
+        intro x hx
+        rcases List.mem_cons.mp hx with rfl | hx
+        · exact hmono x hp.mem
+        · exact hmem x hx
+
+/-- the state `module_load_list` hands to its second half -/
+structure Loaded' (L : List α) (ac : Prop) (s : St α) : Prop where
+  nodup : (names s.mods).Nodup
+  fresh : ∀ a r, find? a s.mods = some r → r.handle = true ∧ r.visited = 0
+  okAll : ∀ a, a ∈ names s.mods → ok a = true
+  deps : ∀ a r, find? a s.mods = some r → r.depends = G a
+  deps_in : ∀ a, a ∈ names s.mods → ∀ d, d ∈ G a → d ∈ names s.mods
+  rdeps_in : ∀ a r, find? a s.mods = some r → ∀ x, x ∈ r.rdepends → x ∈ names s.mods
+  c1 : ∀ a ra b rb, find? a s.mods = some ra → find? b s.mods = some rb →
+        (a ∈ rb.rdepends ↔ b ∈ ra.depends)
+  names_iff : ∀ a, a ∈ names s.mods ↔ Loaded G L a
+  ended : ∀ a, a ∈ names s.mods → Event.ctorEnd a ∈ s.log
+  begun : ∀ a, Event.ctorBegin a ∈ s.log ↔ a ∈ names s.mods
+  onlyCtor : OnlyCtor s.log
+  wo : ac → wo G s.log = true
+
+theorem loaded_of_loadAll {L : List α} {ac : Prop} {s : St α} (hinv : LInv G ok L ac s)
+    (hmem : ∀ x, x ∈ L → x ∈ names s.mods) (hinc : ∀ x, ¬ Incomplete s x) :
+    Loaded' (G := G) (ok := ok) L ac s := by
+  have hend : ∀ a, a ∈ names s.mods → Event.ctorEnd a ∈ s.log := by
+    intro a ha
+    apply Classical.byContradiction
+    intro hne
+    exact hinc a ⟨(hinv.begun a).mpr ha, hne⟩
+  have hdeps : ∀ a r, find? a s.mods = some r → r.depends = G a :=
+    fun a r hr => hinv.deps_done a r hr (hend a (mem_names_of_find? hr))
+  have hdin : ∀ a, a ∈ names s.mods → ∀ d, d ∈ G a → d ∈ names s.mods := by
+    intro a ha d hd
+    obtain ⟨r, hr⟩ := mem_names_iff.mp ha
+    exact hinv.deps_in a r hr d (hdeps a r hr ▸ hd)
+  exact {
+    nodup := hinv.nodup
+    fresh := hinv.fresh
+    okAll := hinv.okAll
+    deps := hdeps
+    deps_in := hdin
+    rdeps_in := hinv.rdeps_in
+    c1 := hinv.c1
+    names_iff := by
+      intro a
+      constructor
+      · exact hinv.loaded a
+      · rintro ⟨l, hl, hr⟩
+        induction hr with
+        | refl => exact hmem l hl
+        | tail _ hc ih => exact hdin _ ih _ hc
+    ended := hend
+    begun := hinv.begun
+    onlyCtor := hinv.onlyCtor
+    wo := hinv.wo }
 
 end
 end Iauthd.Module
